@@ -125,7 +125,11 @@ RE_STATES = re.compile(r"(\d+) states generated, (\d+) distinct states found")
 
 
 def tlc_raw(module, cfg, metadir, workers=1, xmx="3g", timeout=3000, env=None, extra=None, deque=False, light=False):
-    jopts = "-Xss1g" + (" -Dtlc2.tool.queue.IStateQueue=StateDeque" if deque else "")
+    # TLC / SANY leave a temporary directory behind per run: keep them out of /tmp and remove them afterwards
+    jtmp = metadir.rstrip("/") + "_jtmp"
+    shutil.rmtree(jtmp, ignore_errors=True)
+    os.makedirs(jtmp, exist_ok=True)
+    jopts = "-Xss1g -Djava.io.tmpdir=" + jtmp + (" -Dtlc2.tool.queue.IStateQueue=StateDeque" if deque else "")
     e = {"JAVA_TOOL_OPTIONS": jopts}
     if env:
         e.update(env)
@@ -134,8 +138,11 @@ def tlc_raw(module, cfg, metadir, workers=1, xmx="3g", timeout=3000, env=None, e
     cmd = ["java"] + gc + ["-Xmx" + xmx, "-cp", TLA_CP, "tlc2.TLC",
            "-workers", str(workers), "-metadir", metadir, "-cleanup", "-noGenerateSpecTE", "-checkpoint", "0",
            "-config", cfg if os.path.isabs(cfg) else os.path.join(SPEC, cfg), os.path.join(SPEC, module)] + (extra or [])
-    p = sh(cmd, timeout=timeout, env=e, cwd=SPEC, check=False)
-    shutil.rmtree(metadir, ignore_errors=True)
+    try:
+        p = sh(cmd, timeout=timeout, env=e, cwd=SPEC, check=False)
+    finally:
+        shutil.rmtree(metadir, ignore_errors=True)
+        shutil.rmtree(jtmp, ignore_errors=True)
     return p.returncode, p.stdout
 
 
